@@ -20,6 +20,9 @@ C13 radial n m r          -> ok q                zernike_radial (repaired)
 C13 radialold n m r       -> ok q | nan          unrepaired recurrence (n-|m| even, |m| ≤ n)
 C13 abasis ansi start num cut cache D  -> ok n:m=[q…]|…   `basisA` (make_zernike_basis with a grid, array-level cache model) on the
                                                  stored polar / separated grid: one column per mode, with the mode it is
+C13 ptsB                                         the stored grid becomes grid B (a later `pts …` stores grid A)
+C13 gens shared|own D n:m:cut:k,…  -> ok [q…]|[q…]|…   `runGensA`: generator calls on grid A (k = 0) or B (k = 1), in order; `own` = the
+                                                 generators hold no cache (the code), `shared` = one cache for all (D130)
 C13 pairs nmax            -> ok n:m,…            `pairs nmax`: the valid (n, m ≥ 0) with n ≤ nmax (the range of `radial_table`)
 C13 poly n m              -> ok [q…]             `radialPoly n |m|`: coefficients (of r^0, r^1, …) the q-recursion produces
 C13 defpoly n m           -> ok [q…]             `radialDef n |m|`: coefficients of the factorial definition
@@ -43,6 +46,7 @@ inductive Pts where
 
 structure St where
   pts : Pts := .cart []
+  ptsB : Pts := .cart []
 
 def showPair (p : Nat × Int) : String := s!"{p.1}:{p.2}"
 
@@ -194,6 +198,22 @@ def step (st : St) : List String → St × String
         (st, "ok " ++ "|".intercalate ((modes.zip cols).map fun (nm, z) => showPair nm ++ "=" ++ showRatList z))
       | none => (st, "bad-op")
     | _, _, _, _, _, _ => (st, "bad-op")
+  | ["ptsB"] => ({ st with ptsB := st.pts }, "ok")
+  | ["gens", which, D, calls] =>
+    let parseCall? (c : String) : Option (Req × Nat) :=
+      match c.splitOn ":" with
+      | [n, m, cut, k] => do pure (⟨← parseNat? n, ← parseInt? m, ← parseBool? cut⟩, ← parseNat? k)
+      | _ => none
+    let grid? : Pts → Option AGrid
+      | .polar p => some (.pts (p.map (·.1)) (p.map fun t => (t.2.1, t.2.2)))
+      | .sep R d => some (.sep R d)
+      | .cart _ => none
+    match parseRat? D, (calls.splitOn ",").mapM parseCall?, grid? st.pts, grid? st.ptsB,
+        (if which == "own" then some false else if which == "shared" then some true else none) with
+    | some D, some calls, some gA, some gB, some shared =>
+      if D = 0 || calls.any (fun c => !valid c.1.n c.1.m) then (st, "err value") else
+      (st, "ok " ++ "|".intercalate ((runGensA shared D (calls.map fun c => (if c.2 = 0 then gA else gB, c.1)) {}).map showRatList))
+    | _, _, _, _, _ => (st, "bad-op")
   | ["pairs", nmax] =>
     match parseNat? nmax with
     | some nmax => (st, "ok " ++ ",".intercalate ((pairs nmax).map fun (n, m) => s!"{n}:{m}"))
